@@ -464,7 +464,12 @@ def run_model(progs, jobs=common.NCPU, mode="run"):
 
     def one(idx):
         text = "".join("=== %d\n%s" % (i, progs[i] if progs[i].endswith("\n") else progs[i] + "\n") for i in idx)
-        r = subprocess.run([drv, mode], input=text, stdout=subprocess.PIPE, stderr=subprocess.PIPE, text=True)
+        try:
+            r = subprocess.run([drv, mode], input=text, stdout=subprocess.PIPE, stderr=subprocess.PIPE, text=True,
+                               timeout=1200)
+        except subprocess.TimeoutExpired:
+            # (cannot happen for programs of the language: the budget bounds their work; never hang a check)
+            return {i: "MODEL-TIMEOUT\n" for i in idx}
         res = {}
         cur = None
         for line in r.stdout.split("\n"):
